@@ -138,7 +138,7 @@ PROPS = {
         units=['tokenizer', 'parser_unary'],
         assumptions=['inputs shorter than 2 GiB (the f-string brace depth counter is an i32)', 'std: from_str_radix / parse::<f64> / char::from_u32 / is_digit(16) / is_ascii_hexdigit / trim_start_matches as specified in the trampolines'],
         level_text='PARTIAL. Proved for all inputs on the real tokenizer / parser functions: (1) every escape of a quoted string literal and of a byte-string literal pushes exactly the character / byte the CEL escape denotes (one named obligation per escape: a b f n r t v, backslash, quotes; \\xHH \\uHHHH \\UHHHHHHHH = the code point of exactly that many hex digits and only if it is a Unicode scalar value; three-digit octal; raw strings and plain characters are taken literally, UTF-8 encoded in byte strings); (2) the number scanner collects exactly the characters it consumes and hands exactly that text to std: radix 16 iff the 0x marker (stripped), a trailing u/U selects the unsigned token, otherwise int or float parse of the same text; (3) keywords (true false null in match case) vs identifiers = the longest run of identifier characters; (4) parse_primary turns each literal token into the constant it carries (int literals: for values up to i64::MAX). The value std computes from a digit string (from_str_radix, parse::<f64>, char::from_u32) is assumed.',
-        not_covered=['integer literals above i64::MAX wrap instead of being rejected (known, unrepaired: the repair needs a negative-literal rule so that -9223372036854775808 stays expressible; no obligation is stated for that range)', 'f-string segmentation ({ } handling) beyond "scanner stays well formed"; the dispatch from the first character to the literal sub-scanners (string / bytes / number) is only covered for operators, keywords and identifiers', 'what std computes: from_str_radix, str::parse::<f64> (correct rounding), char::from_u32, UTF-8 encoding are assumed'],
+        not_covered=['integer literals above i64::MAX wrap instead of being rejected (known, unrepaired: the repair needs a negative-literal rule so that -9223372036854775808 stays expressible; no obligation is stated for that range)', 'f-string segmentation ({ } handling) beyond "scanner stays well formed"; the dispatch from the first character to the literal sub-scanners IS covered for the prefixes (r + quote: a StringLit whose text is exactly the characters up to the next delimiter; b + quote: a ByteStringLit; a bare quote: a StringLit; operators, keywords, identifiers), not for the value of non-raw string literals as a whole (their escapes are covered one by one) nor for numbers beyond the number scanner own contract', 'what std computes: from_str_radix, str::parse::<f64> (correct rounding), char::from_u32, UTF-8 encoding are assumed'],
     ),
     'C17': dict(
         units=['parser', 'compprog', 'parser_expr', 'parser_unary', 'parser_member', 'parser_matchx', 'parser_top', 'bindctx', 'parser_match'],
